@@ -348,7 +348,7 @@ func HarnessC14_Seq() {
 	}
 	limits := []int{0, 2}
 	if vTier() == 1 {
-		limits = []int{0, 2, 4} // (with limit 1 and byte-wise reads as well the depth-3 space did not finish in 25 minutes)
+		limits = []int{0, 2} // (more limits or byte-wise reads: the depth-3 space did not finish in 25 minutes)
 	}
 	limit := limits[vChoice(len(limits))]
 	var frames []seqFrame
